@@ -4,7 +4,7 @@
    Layer 3 (protocol over a lossy network): Block/BlockProtoProofs.v, see the end. *)
 From LibcoapV Require Import Base.Tactics Base.Bytes Block.BlockOpt Block.BlockOptProofs
   Block.Slices Block.SlicesProofs Block.RecBlocks Block.RecBlocksProofs Block.BufProofs
-  Block.ReassemblyProofs.
+  Block.ReassemblyProofs Block.BlockProto Block.BlockProtoProofs.
 Local Open Scope Z_scope.
 
 (* ---------------------------------------------------------------- layer 1: option value *)
@@ -178,3 +178,111 @@ Theorem C09_inorder_client : forall body szx (junk : Z -> Z),
   = repeat BoContinue (Z.to_nat (blk_nblocks body szx - 1)) ++ [BoDeliver body].
 Proof. exact blk_cli_inorder. Qed.
 Print Assumptions C09_inorder_client.
+
+(* ---------------------------------------------------------------- layer 3: protocol *)
+
+
+(* Concurrent uploads on one session and resource, told apart by Request-Tag: the outcomes
+   seen by one transfer are exactly those of its own requests run alone (the lg_srcv list and
+   its lookup never let another transfer's blocks in) ... *)
+Theorem C09_proto_projection : forall junk maxszx l tab t, blk_tab_uniq tab ->
+  map snd (filter (fun p => blk_rtag_match t (fst p)) (blk_srv_recv_run junk maxszx tab l)) =
+  blk_run (blk_srv_step junk maxszx) (blk_tab_find tab t)
+          (map rq_arr (filter (fun r => blk_rtag_match t (rq_rtag r)) l)).
+Proof. exact blk_srv_recv_projection. Qed.
+Print Assumptions C09_proto_projection.
+
+(* ... hence, for every interleaving, loss, duplication and delay of the requests of any
+   number of transfers: every body delivered for Request-Tag t is the body of transfer t, and
+   it is delivered no more often than any of its blocks arrived *)
+Theorem C09_proto_safety_block1 : forall (bodies : Z -> bytes) (sizes : Z -> option Z) u junk maxszx l,
+  0 <= u ->
+  Forall (fun r => exists t s k, rq_rtag r = Some t /\
+                    u <= s /\ 0 <= k < blk_nblocks (bodies t) s /\
+                    rq_arr r = blk_arr_of (bodies t) s (sizes t) k /\
+                    blk_srv_init_szx maxszx (rq_arr r) = u) l ->
+  forall t, 0 < len (bodies t) -> sizes t = None \/ sizes t = Some (len (bodies t)) ->
+  let outs := map snd (filter (fun p => blk_rtag_match (Some t) (fst p))
+                         (blk_srv_recv_run junk maxszx [] l)) in
+  Forall (fun o => match o with BoDeliver d => d = bodies t | BoReject => False | _ => True end) outs /\
+  forall j, 0 <= j < blk_nblocks (bodies t) u ->
+    blk_count_deliveries outs <=
+    blk_count_cover u j (map rq_arr (filter (fun r => blk_rtag_match (Some t) (rq_rtag r)) l)).
+Proof. exact blk_srv_no_mix. Qed.
+Print Assumptions C09_proto_safety_block1.
+
+(* the Request-Tag is what this rests on: without it two uploads to one resource mix *)
+Theorem C09_proto_mix_without_rtag_refuted :
+  let b1 := map (fun i => Z.of_nat i) (seq 0 40) in
+  let b2 := map (fun i => 100 + Z.of_nat i) (seq 0 40) in
+  let rq b k := {| rq_rtag := None; rq_arr := blk_arr_of b 0 (Some 40) k |} in
+  exists d, In (None, BoDeliver d)
+              (blk_srv_recv_run (fun _ => 0) 0 [] [rq b1 0; rq b2 1; rq b1 2]) /\
+            d <> b1 /\ d <> b2.
+Proof. exact blk_srv_mix_without_rtag. Qed.
+Print Assumptions C09_proto_mix_without_rtag_refuted.
+
+(* Block2: whatever mixture of blocks of different representations (ETags) reaches the
+   client, in any order, with duplicates and gaps: a delivered body is one representation,
+   complete and unmixed *)
+Theorem C09_proto_safety_block2 : forall (bodies : Z -> bytes) (sizes : Z -> option Z) szx junk,
+  0 <= szx -> forall l,
+  Forall (fun r => exists e k, rs_etag r = Some e /\
+              (0 < len (bodies e) /\ (sizes e = None \/ sizes e = Some (len (bodies e)))) /\
+              0 <= k < blk_nblocks (bodies e) szx /\
+              rs_arr r = blk_arr_of (bodies e) szx (sizes e) k) l ->
+  Forall (fun o => match o with
+                   | BoDeliver d => exists e, (0 < len (bodies e) /\
+                        (sizes e = None \/ sizes e = Some (len (bodies e)))) /\ d = bodies e
+                   | BoReject | BoPass => False
+                   | _ => True
+                   end)
+         (blk_cli_recv_run junk {| cr_etag := None; cr_st := None |} l).
+Proof.
+  intros bodies sizes szx junk Hs l Hl.
+  exact (blk_cli_epochs bodies sizes szx junk Hs l Hl {| cr_etag := None; cr_st := None |} I).
+Qed.
+Print Assumptions C09_proto_safety_block2.
+
+(* no datagram lost or duplicated: exactly one delivery, of the body *)
+Theorem C09_lossless_complete_block1 : forall body szx junk size,
+  0 <= szx -> 0 < len body -> size = None \/ size = Some (len body) ->
+  forall maxszx, 2 <= blk_nblocks body szx ->
+  blk_srv_init_szx maxszx (blk_arr_of body szx size 0) = szx ->
+  blk_b1_loop (Z.to_nat (blk_nblocks body szx)) junk maxszx body size
+    {| sn_szx := szx; sn_last := -1; sn_off := 0 |} None 0 szx
+  = repeat BoContinue (Z.to_nat (blk_nblocks body szx - 1)) ++ [BoDeliver body].
+Proof. exact blk_b1_lossless. Qed.
+Print Assumptions C09_lossless_complete_block1.
+
+(* ... also when the server forces its smaller block size on the first block (the client's
+   renumbering, coap_handle_response_send_block, against the server's unit conversion) *)
+Theorem C09_lossless_complete_block1_renegotiated : forall body u junk size,
+  0 <= u -> 0 < len body -> size = None \/ size = Some (len body) ->
+  forall maxszx s0, u < s0 ->
+  blk_srv_init_szx maxszx (blk_arr_of body s0 size 0) = u ->
+  let q := 2 ^ (s0 - u) in q < blk_nblocks body u ->
+  blk_b1_loop (Z.to_nat (blk_nblocks body u)) junk maxszx body size
+    {| sn_szx := s0; sn_last := -1; sn_off := 0 |} None 0 s0
+  = repeat BoContinue (Z.to_nat (blk_nblocks body u - q)) ++ [BoDeliver body].
+Proof. exact blk_b1_lossless_renegotiated. Qed.
+Print Assumptions C09_lossless_complete_block1_renegotiated.
+
+Theorem C09_lossless_complete_block2 : forall body szx junk size,
+  0 <= szx -> 0 < len body -> size = None \/ size = Some (len body) -> forall e,
+  blk_b2_loop (Z.to_nat (blk_nblocks body szx)) junk body szx size (Some e)
+    {| cr_etag := None; cr_st := None |} 0
+  = repeat BoContinue (Z.to_nat (blk_nblocks body szx - 1)) ++ [BoDeliver body].
+Proof. exact blk_b2_lossless. Qed.
+Print Assumptions C09_lossless_complete_block2.
+
+(* non-vacuity of the closed loops: a 100-byte body, 16-byte blocks at the server (maximum
+   block size 16 cannot be configured - SZX 0 means "not set" - so 32), 64-byte first block *)
+Theorem C09_lossless_example :
+  let body := map (fun i => Z.of_nat i mod 251) (seq 0 100) in
+  blk_b1_loop 8 (fun _ => 0) 1 body (Some 100) {| sn_szx := 2; sn_last := -1; sn_off := 0 |} None 0 2
+    = [BoContinue; BoContinue; BoDeliver body] /\
+  blk_b2_loop 8 (fun _ => 0) body 1 (Some 100) (Some 7) {| cr_etag := None; cr_st := None |} 0
+    = [BoContinue; BoContinue; BoContinue; BoDeliver body].
+Proof. vm_compute. split; reflexivity. Qed.
+Print Assumptions C09_lossless_example.
